@@ -139,7 +139,7 @@ def run(ctx):
     rep.cov["rule"] = ("%d worlds with: a file excluded by a path entry inside the declaring package (zz_generated.go: @immutable/@constructor/@testonly/@packageonly items used elsewhere, violations), "
                        "a package in an excluded directory (/gen/), an in-package _test.go declaring an @immutable type, an external test package, plus the usual user packages; %d configurations "
                        "of scan-tests x exclude-paths (empty, default, several entries, an entry matching an ordinary file, blanks). Per configuration: implementation = model; no diagnostic in an "
-                       "excluded file; no TONL in _test.go; same diagnostics when the comments of all excluded files are blanked; for two configurations also go vet -vettool (tool started in each package's directory) and a run started inside an excluded directory give the same verdicts. evaluations = files x configurations; non-trivial = configurations "
+                       "excluded file; no TONL in _test.go; same diagnostics when the comments of all excluded files are blanked; for two configurations also go vet -vettool (tool started in each package's directory) and a run started inside an excluded directory give the same verdicts. plus 16 repeated runs on a module of 48 packages whose only violations sit in files excluded by default (stressgen.excluded_stress), alternating the default configuration and a 3000-entry list. evaluations = files x configurations; non-trivial = configurations "
                        "that exclude at least one file while diagnostics remain" % (n, len(CONFIGS)))
     rep.cov["files"] = len(allfiles)
     rep.cov["samples"] = [{"config": [c[0], c[1]], "excluded_files": sum(1 for f in allfiles if skipped(c, os.path.join(root, f))), "diagnostics": len(r[0]["diags"])} for c, r in zip(CONFIGS, results)]
